@@ -49,3 +49,65 @@ def reader_segmentations(tier, seed):
             if len(samples) < 3:
                 samples.append({'msg_size': size, 'stream_head': stream[:24].hex(), 'len': len(stream), 'chunks': cuts[2]})
     return {'evaluations': evals, 'distinct_nontrivial': len(distinct), 'bound': '11 message shapes x 2 maximum sizes x 12 (quick) / 46 (thorough) segmentations', 'rule': 'one case = (message shape, max size, chunk list); all are distinct by construction', 'samples': samples, 'failures': fails}
+
+
+# ---------------------------------------------------------------------------------------------------------------------
+# the assumption the reader contract states ("no interference at await") is not true of its caller: Peer._main used to
+# cancel the read every 100 ms.  The real Peer over loopback TCP (bounded/sessionharness.py), messages delivered in two
+# segments with a pause longer than the main loop's read timeout.
+from .registry import replayer  # noqa: E402
+
+
+def _delayed_case(cut, gap, kind):
+    import asyncio
+    from . import sessionharness as S
+    from spec import wire as W
+
+    async def go():
+        sess = S.Session()
+        inp = {'message': kind, 'cut': cut, 'gap_s': gap}
+        try:
+            try:
+                await sess.to_state('ESTABLISHED')
+            except RuntimeError as e:
+                return {'what': f'harness: {e}', 'input': inp, 'harness': True}
+            attrs = W.origin(0) + W.as_path([65002], True) + W.next_hop('192.0.2.1')
+            m = S.msg(2, W.update_body(b'', attrs, bytes([24, 10, 0, 0]))) if kind == 'update' else S.KEEPALIVE
+            before = sess.peer.stats.get('receive-' + kind, 0)
+            await sess.remote.send(m[:cut])
+            await asyncio.sleep(gap)
+            await sess.remote.send(m[cut:])
+            await asyncio.sleep(0.4)
+            nots = [e for e in sess.log if e[0] == 'sent' and e[2] == 3]
+            got = sess.peer.stats.get('receive-' + kind, 0) - before
+            state = sess.peer.fsm.name()
+            sess.peer.teardown(2)
+            await sess.finish(4)
+            if nots or state != 'ESTABLISHED':
+                return {'what': f'a {kind} delivered in two segments {gap} s apart (cut after {cut} bytes) ended the session' + (f' with NOTIFICATION {nots[0][3][0]}/{nots[0][3][1]}' if nots else ''), 'input': inp}
+            if got != 1:
+                return {'what': f'a {kind} delivered in two segments {gap} s apart was received {got} times', 'input': inp}
+            return None
+        finally:
+            sess.cleanup()
+
+    return S.run(go(), 30)
+
+
+@bounded('C06', 'delayed-segments')
+def delayed_segments(tier, seed):
+    import multiprocessing as mp
+
+    cases = [(cut, gap, kind) for kind in ('update', 'keepalive') for cut in ((1, 10, 18, 19, 25, 40) if kind == 'update' else (1, 16, 18)) for gap in ((0.0, 0.15, 0.35) if tier == 'quick' else (0.0, 0.05, 0.15, 0.35, 1.1))]
+    with mp.get_context('fork').Pool(8) as pool:
+        res = pool.starmap(_delayed_case, cases)
+    crashes = [r for r in res if r and r.get('harness')]
+    if crashes:
+        raise RuntimeError('session harness failed: ' + crashes[0]['what'])
+    fails = [r for r in res if r]
+    return {'evaluations': len(cases), 'distinct_nontrivial': len(cases), 'bound': 'an UPDATE / KEEPALIVE sent to the real established Peer in two TCP segments, cut inside the marker, the length, right after the header and inside the body, with pauses of 0, 0.15, 0.35 s (thorough: also 0.05 and 1.1 s) -- shorter and longer than the 0.1 s read timeout of the main loop', 'rule': 'one case = (message, cut, pause)', 'samples': [{'message': 'update', 'cut': 10, 'gap_s': 0.35}], 'failures': fails}
+
+
+@replayer('C06', 'delayed-segments')
+def _replay_delayed(f):
+    return _delayed_case(f['input']['cut'], f['input']['gap_s'], f['input']['message']) is None
